@@ -6,6 +6,7 @@ use crate::rt::{self, choice, R};
 use crate::spec::{self, *};
 use crate::{ensure, must};
 use bc_envelope::prelude::*;
+#[allow(unused_imports)]
 use dcbor::prelude::*;
 
 fn bytes(e: &Envelope) -> Vec<u8> { e.tagged_cbor().to_cbor_data() }
